@@ -10,7 +10,67 @@
 use ohsl::{Sparse, Vector};
 use crate::io::{Args, Out, Elt};
 
+// HISTORIES (special-values audit):
+//   it.seq <pre> <rows> <cols> [ri..] [ci..] [vals..] [b..] [x0..] <tol> [solver codes..] [budgets..]
+// builds the matrix, applies the operation <pre> to it, then calls the listed solvers ONE AFTER THE OTHER on the same
+// matrix object and the same x (each call starts from what the previous one left).  Solver codes: 0 cg, 1 bicg itol 1,
+// 2 bicg itol 2, 3 bicgstab, 4 qmr.  <pre>: none | tt (transpose twice) | vecs (rebuilt with Sparse::from_vecs from its
+// own CSC arrays) | insert (built from all triplets but the last one, which is then stored with Sparse::insert) |
+// scale:<f64> (Sparse::scale; the reference matrix is the scaled one) | clone-x (x is replaced by x.clone() first).
+// Answer: for every call i0 i<k> | i1 f<err>, then x (length, components), then the budget.
+fn run_seq(a: &mut Args, out: &mut Out) {
+    let pre = a.word().to_string();
+    let rows = a.usize();
+    let cols = a.usize();
+    let ri = a.usizes();
+    let ci = a.usizes();
+    let vals = a.vec_std::<f64>();
+    if ri.len() != ci.len() || ri.len() != vals.len() { panic!("harness: triplet lists differ in length"); }
+    let b = a.v::<f64>();
+    let mut x = a.v::<f64>();
+    let tol = a.f64();
+    let codes = a.usizes();
+    let budgets = a.usizes();
+    if codes.len() != budgets.len() { panic!("harness: solver and budget lists differ in length"); }
+    let mut triplets: Vec<(usize, usize, f64)> = (0..ri.len()).map(|k| (ri[k], ci[k], vals[k])).collect();
+    let s: Sparse<f64> = if pre == "insert" && !triplets.is_empty() {
+        let last = triplets.pop().unwrap();
+        let mut s0 = Sparse::<f64>::from_triplets(rows, cols, &mut triplets);
+        s0.insert(last.0, last.1, last.2);
+        s0
+    } else {
+        let s0 = Sparse::<f64>::from_triplets(rows, cols, &mut triplets);
+        if pre == "tt" { s0.transpose().transpose() }
+        else if pre == "vecs" { Sparse::<f64>::from_vecs(rows, cols, s0.val.clone(), s0.row_index.clone(), s0.col_start.clone()) }
+        else if pre.starts_with("scale:") { let c = crate::io::parse_f64(&pre[6..]); let mut s1 = s0; s1.scale(&c); s1 }
+        else if pre == "none" || pre == "insert" || pre == "clone-x" { s0 }
+        else { panic!("harness: unknown pre-operation {}", pre) }
+    };
+    if pre == "clone-x" { x = x.clone(); }
+    let bsnap: Vec<u64> = (0..b.size()).map(|i| b[i].to_bits()).collect();
+    for (c, &max_iter) in codes.iter().zip(budgets.iter()) {
+        let r = match *c {
+            0 => s.solve_cg(&b, &mut x, max_iter, tol),
+            1 => s.solve_bicg(&b, &mut x, max_iter, tol, 1),
+            2 => s.solve_bicg(&b, &mut x, max_iter, tol, 2),
+            3 => s.solve_bicgstab(&b, &mut x, max_iter, tol),
+            4 => s.solve_qmr(&b, &mut x, max_iter, tol),
+            _ => panic!("harness: unknown solver code {}", c),
+        };
+        for i in 0..b.size() {
+            if b[i].to_bits() != bsnap[i] { panic!("harness: operand mutated by solver {}", c); }
+        }
+        match r {
+            Ok(k) => { out.usize(0); out.usize(k); }
+            Err(e) => { out.usize(1); out.f(e); }
+        }
+        out.v(&x);
+        out.usize(max_iter);
+    }
+}
+
 pub fn run(kind0: &str, a: &mut Args, out: &mut Out) {
+    if kind0 == "it.seq" { return run_seq(a, out); }
     let brief = kind0.ends_with(".t");
     let kind = if brief { &kind0[..kind0.len() - 2] } else { kind0 };
     let itol = if kind == "it.bicg" { a.usize() } else { 0 };
